@@ -18,12 +18,24 @@ def run(prog: Program, rep: Report):
     csvr = prog.cls("CSVRecord", FILES_MOD)
     jsonr = prog.cls("JsonRecord", FILES_MOD)
     record = prog.cls("Record", FILES_MOD)
-    r1_dialect(prog, rep, csvr)
-    r2_fields(prog, rep, record, csvr, jsonr)
-    r3_buffer(prog, rep, csvr)
-    r4_one_line(prog, rep, csvr, jsonr)
-    r5_record_layer(prog, rep)
-    r6_class_keyed(prog, rep, [record, jsonr, csvr] + [c for c in prog.classes.values() if c.mod.name == FILES_MOD and csvr in (c.mro or []) and c is not csvr])
+    rep.attempt(lambda: r1_dialect(prog, rep, csvr))
+    rep.attempt(lambda: r2_fields(prog, rep, record, csvr, jsonr))
+    rep.attempt(lambda: r3_buffer(prog, rep, csvr))
+    rep.attempt(lambda: r4_one_line(prog, rep, csvr, jsonr))
+    rep.attempt(lambda: r5_record_layer(prog, rep))
+    from .mixins import rule_mixin_surface
+    base_rf = prog.cls("BaseRecordFile", FILES_MOD)
+    rfs = [c for c in prog.classes.values() if c.mod.name == FILES_MOD and base_rf in (c.mro or [])]
+    rep.attempt(lambda: rule_mixin_surface(prog, rep, "C13.R7", rfs, owners={c.name for c in rfs}))
+    from .purity import rule_history_free
+    rec_methods = [m for c in (record, jsonr, csvr) for m in c.methods.values() if m.name in ("load", "save") or m.name.startswith("_")
+                   and not (m.name.startswith("__") and m.name.endswith("__"))]
+    rep.attempt(lambda: rule_history_free(prog, rep, "C13.R8", rec_methods))
+    # "a record file returns load(line) for each line": the offset index the lines are read through is part of this property
+    from .c11 import r5_index
+    from .filefam import Family
+    rep.attempt(lambda: r5_index(prog, rep, Family(prog), rule="C13.R9", only_binary=True))
+    rep.attempt(lambda: r6_class_keyed(prog, rep, [record, jsonr, csvr] + [c for c in prog.classes.values() if c.mod.name == FILES_MOD and csvr in (c.mro or []) and c is not csvr]))
 
 
 def _csv_calls(prog, cls: Cls):
